@@ -279,6 +279,55 @@ def own_header(chk):
     chk.check(okcall, 'C05-R8', CAT, 'CompaSOHaloCatalog._read_halo_info', 'loaders rebuilt from each file\'s own header before it is unpacked', why,
               why + ' -- with a light-cone list over several redshift directories (accepted: the mixed-directory test is waived for light cones) the velocity-like columns of the later '
               'files are off by the ratio of the two VelZSpace_to_kms (13% between z=2.25 and z=0.2)', node=loops[0] if loops else rhi)
+    # the loader that is CALLED for a file comes out of the table rebuilt for that file: the callee of `<loader>(match, rawhalos, halos)` in
+    # _load_halo_field depends on no instance state but self.halo_field_loaders (a memo of resolved loaders kept on the instance survives the
+    # per-file rebuild and keeps the first file's closures, i.e. the first file's BoxSize / VelZSpace_to_kms)
+    lhf = src.func(CAT, 'CompaSOHaloCatalog._load_halo_field')
+    binds = {}
+
+    def _bind(t, v):
+        for x in ast.walk(t):
+            if isinstance(x, ast.Name):
+                binds.setdefault(x.id, []).append(v)
+            elif isinstance(x, (ast.Subscript, ast.Attribute)) and isinstance(x.ctx, ast.Store):
+                b_ = x
+                while isinstance(b_, (ast.Subscript, ast.Attribute)):
+                    b_ = b_.value
+                if isinstance(b_, ast.Name) and b_.id != 'self':
+                    binds.setdefault(b_.id, []).append(v)       # a store through a local container
+    for n in ast.walk(lhf):
+        if isinstance(n, ast.Assign):
+            for t in n.targets:
+                _bind(t, n.value)
+        elif isinstance(n, (ast.AugAssign, ast.AnnAssign)) and n.value is not None:
+            _bind(n.target, n.value)
+        elif isinstance(n, (ast.For, ast.comprehension)):
+            _bind(n.target, n.iter)
+        elif isinstance(n, ast.NamedExpr):
+            _bind(n.target, n.value)
+
+    def _state(e, seen):
+        out = set()
+        for x in ast.walk(e):
+            if isinstance(x, ast.Attribute) and isinstance(x.value, ast.Name) and x.value.id == 'self':
+                out.add(x.attr)
+            elif isinstance(x, ast.Call) and dotted(x.func) in ('getattr', 'vars', 'hasattr') and x.args and unparse(x.args[0]) == 'self':
+                out.add(x.args[1].value if len(x.args) > 1 and isinstance(x.args[1], ast.Constant) else '__dict__')
+            elif isinstance(x, ast.Name) and isinstance(x.ctx, ast.Load) and x.id in binds and x.id not in seen:
+                seen.add(x.id)
+                for v in binds[x.id]:
+                    out |= _state(v, seen)
+        return out
+    lcalls = [c_ for c_ in ast.walk(lhf) if isinstance(c_, ast.Call) and len(c_.args) == 3 and not c_.keywords and [unparse(a) for a in c_.args[1:]] == ['rawhalos', 'halos']]
+    if not lcalls:
+        raise AnalysisError('_load_halo_field: loader call not found')
+    for c_ in lcalls:
+        st_ = _state(c_.func, set()) - {'halo_field_loaders'}
+        # the loaded-field bookkeeping and the warning configuration do not select the loader
+        chk.check(not st_, 'C05-R8', CAT, 'CompaSOHaloCatalog._load_halo_field', 'the loader called for a file is taken from the table rebuilt for that file (self.halo_field_loaders only)',
+                  unparse(c_.func)[:60],
+                  f'the callee {unparse(c_.func)[:50]} can come from instance state {sorted(st_)} that is not rebuilt per file: the loaders are closures over BoxSize / VelZSpace_to_kms, so a '
+                  'loader remembered from an earlier file converts the later files of a multi-epoch light-cone list with the FIRST file\'s factors (the per-file rebuild is bypassed)', node=c_)
     # the setup takes the factors from its header parameter
     params = [a.arg for a in setup.args.args]
     reads = [n for n in walk_no_nested(setup) if isinstance(n, ast.Subscript) and isinstance(n.slice, ast.Constant) and n.slice.value in ('BoxSize', 'VelZSpace_to_kms')
